@@ -94,6 +94,14 @@ pub fn start_replay(values: Vec<u32>) {
     t.draws = 0;
 }
 
+static ECHO: std::sync::atomic::AtomicBool = std::sync::atomic::AtomicBool::new(false);
+
+/// Echo every draw to stdout as it happens (so the tape of a crashing run can
+/// be recovered).
+pub fn set_echo(on: bool) {
+    ECHO.store(on, std::sync::atomic::Ordering::Relaxed);
+}
+
 pub fn take_record() -> Vec<(u16, u32, u32)> {
     std::mem::take(&mut tape().record)
 }
@@ -117,6 +125,12 @@ pub fn choose(site: u16, n: u32) -> u32 {
         t.replay.get(p).copied().unwrap_or(0) % n
     };
     t.record.push((site, n, v));
+    if ECHO.load(std::sync::atomic::Ordering::Relaxed) {
+        use std::io::Write;
+        let mut o = std::io::stdout().lock();
+        let _ = write!(o, "d{v},");
+        let _ = o.flush();
+    }
     v
 }
 
